@@ -31,6 +31,7 @@ func init() {
 	ghostSorts["ctxNoCancel"] = arraySort("Int", "Bool")
 	ghostSorts["ctxExpires"] = arraySort("Int", "Bool")
 	ghostSorts["ctxCancelled"] = arraySort("Int", "Bool")
+	ghostSorts["chHas_Iface"] = arraySort("Int", arraySort(sortIface, "Bool"))
 }
 
 func chHasGhost(elem types.Type) string {
@@ -366,6 +367,7 @@ func init() {
 		gSet(st, "pending", g, Int(0))
 		gSet(st, "groupErr", g, False)
 		fr.groups = append(fr.groups, g)
+		fr.groupPC = append(fr.groupPC, st.pc)
 		rt := sig.Results().At(0).Type()
 		if sortOf(rt) == "Int" {
 			return Value{T: g}
